@@ -26,7 +26,9 @@ RULE = (
     'as a state invariant after every sequence of up to 4 (5) workflow steps.  Oracle: average_recession_time(z) - T_truth(z) and '
     'average_rising_depth(z) - Sy z are constant over the curve; all '
     'aligned pieces coincide wherever they overlap; a curve must be '
-    'assembled whenever two recorded pieces share a level.  Words are '
+    'assembled whenever two recorded pieces share a level, and a rise '
+    'curve whenever two planted storms lift the level through a common '
+    'grid level.  Also on one-second and one-day steps.  Words are '
     'paths of the event tree (states = events, transitions = workflow '
     'steps).  Non-trivial = both master curves were assembled and checked.')
 ASSUMPTIONS = [
@@ -124,6 +126,19 @@ def spaces(tier):
             out.append(word_space(2, config, False, gaps=True))
             out.append(word_space(3, config, False, gaps=True))
     return out
+
+
+def planted_rises_share_level(ds, step):
+    import math
+    from fractions import Fraction
+    spans = []
+    for (_first, _k, z0, z1) in ds['storms']:
+        lo = math.ceil(Fraction(z0) / Fraction(step))
+        hi = math.ceil(Fraction(z1) / Fraction(step)) - 1   # z1 excluded
+        if hi >= lo:
+            spans.append((lo, hi))
+    return any(max(a[0], b[0]) <= min(a[1], b[1])
+               for i, a in enumerate(spans) for b in spans[i + 1:])
 
 
 def pieces_share_level(connection, kind, step):
@@ -289,6 +304,17 @@ def run_case(case):
                              % name] = 1
         v, info = check_curves(connection, ds, step)
         viol += v
+        # the planted storms themselves: two of them lifting the water table
+        # through a common grid level are two pieces of the rise curve,
+        # whatever was recorded
+        if 'rise_levels' not in info and planted_rises_share_level(ds, step):
+            viol.append((
+                'planted-rises-not-recovered',
+                'no rise curve although two planted storms lift the level '
+                'through a common grid level (storms (first step, steps, '
+                'from, to): %r; recorded rise pieces: %r; rise error: %r)'
+                % (ds['storms'], info.get('rise_pieces', 0),
+                   errors.get('rise'))))
     finally:
         connection.close()
         if db and os.path.exists(db):
